@@ -112,7 +112,12 @@ func join(r *rand.Rand, ls []lex, crlf bool) string {
 	for i, l := range ls {
 		out.WriteString(l.s)
 		if l.raw {
-			sb.WriteString("\n")
+			// a verbatim block is usually followed by a line break, sometimes only by a blank
+			if r != nil && i < len(ls)-1 && r.Intn(4) == 0 {
+				sb.WriteString(" ")
+			} else {
+				sb.WriteString("\n")
+			}
 			continue
 		}
 		if i == len(ls)-1 {
@@ -129,7 +134,11 @@ func join(r *rand.Rand, ls []lex, crlf bool) string {
 			// verbatim blocks start on their own line
 			s := sep(r, true, "")
 			if !strings.HasSuffix(s, "\n") {
-				s += "\n"
+				if r != nil && r.Intn(4) == 0 {
+					s += " " // the block starts on the line of the element before it
+				} else {
+					s += "\n"
+				}
 			}
 			sb.WriteString(s)
 			continue
